@@ -79,6 +79,9 @@ int main(void) {
     }
   }
   END()
+  BEGIN("scalar.AtomicWeight_arr.below_1000")
+  for (Z = 0; Z <= ZMAX; Z++) if (!(AtomicWeight_arr[Z] < 1000.0)) BAD("Z=%d atomic weight %g", Z, AtomicWeight_arr[Z]);
+  END()
   BEGIN("cross.form_factor_implies_atomic_weight")
   for (Z = 1; Z <= ZMAX; Z++) {
     if (Nq_Rayl[Z] > 0 && !(AtomicWeight_arr[Z] > 0.0)) BAD("Z=%d has a form factor table but no atomic weight", Z);
